@@ -70,23 +70,27 @@ type simProc struct {
 }
 
 type sim struct {
-	c           *vs.Case
-	t           vs.Failer
-	w           *vs.MyWorld
-	zk          *vs.ZKServer
-	opts        simOpts
-	dir         string
-	procs       map[string]*simProc // current incarnation per host
-	all         []*simProc
-	ports       map[int]*simProc
-	mu          sync.Mutex
-	panics      []simPanic
-	nextInc     map[string]int
-	startNo     map[string]int
-	found       []finding
-	closed      bool
-	traceFrom   int
-	ackerWindow bool
+	c            *vs.Case
+	t            vs.Failer
+	w            *vs.MyWorld
+	zk           *vs.ZKServer
+	opts         simOpts
+	dir          string
+	procs        map[string]*simProc // current incarnation per host
+	all          []*simProc
+	ports        map[int]*simProc
+	mu           sync.Mutex
+	panics       []simPanic
+	nextInc      map[string]int
+	startNo      map[string]int
+	found        []finding
+	closed       bool
+	healthAt     map[*tickRec]*nodestate.NodeState
+	regHA        map[*tickRec][]string
+	lastSwitchAt map[*tickRec]string
+	stateLoops   atomic.Int64
+	traceFrom    int
+	ackerWindow  bool
 }
 
 var (
@@ -131,7 +135,8 @@ func newSim(c *vs.Case, t vs.Failer, dir string, o simOpts) *sim {
 	if o.Ver == [3]int{} {
 		o.Ver = [3]int{8, 0, 32}
 	}
-	s := &sim{c: c, t: t, w: vs.NewMyWorld(), zk: vs.NewZKServer(), opts: o, dir: dir, procs: map[string]*simProc{}, ports: map[int]*simProc{}, nextInc: map[string]int{}, startNo: map[string]int{}}
+	s := &sim{c: c, t: t, w: vs.NewMyWorld(), zk: vs.NewZKServer(), opts: o, dir: dir, procs: map[string]*simProc{}, ports: map[int]*simProc{}, nextInc: map[string]int{}, startNo: map[string]int{},
+		healthAt: map[*tickRec]*nodestate.NodeState{}, regHA: map[*tickRec][]string{}, lastSwitchAt: map[*tickRec]string{}}
 	curSim.Store(s)
 	names := append([]string{}, o.HA...)
 	var casc []string
@@ -319,12 +324,20 @@ func (s *sim) body(p *simProc, kind string) func() {
 			p.ticks++
 			handlers := map[appState]func() appState{stateFirstRun: a.stateFirstRun, stateManager: a.stateManager,
 				stateCandidate: a.stateCandidate, stateLost: a.stateLost, stateMaintenance: a.stateMaintenance}
-			for {
+			// Run() re-runs the handlers without sleeping while the state changes. A candidate
+			// that sees 'should_leave' before the manager has removed the maintenance record
+			// cycles Candidate -> Maintenance -> Candidate at full speed until the manager acts;
+			// in a stepper nobody else runs meanwhile, so the harness yields after a few
+			// transitions (the next tick continues where this one stopped).
+			for i := 0; i < 8; i++ {
 				next := handlers[a.state]()
 				if next == a.state {
 					break
 				}
 				a.state = next
+				if i == 7 {
+					s.stateLoops.Add(1)
+				}
 			}
 		}
 	case "health":
@@ -842,13 +855,19 @@ func (s *sim) currentMaint() *Maintenance {
 }
 
 // beginTick records the before-state and starts a tick of p (which may stay in flight).
-func (s *sim) beginTick(p *simProc) *tickRec {
+func (s *sim) beginTick(p *simProc) *tickRec { return s.beginTickWith(p, nil) }
+
+// beginTickWith lets the caller record more of the before-state.
+func (s *sim) beginTickWith(p *simProc, extra func(r *tickRec)) *tickRec {
 	if s.anyBusy(p) {
 		return nil
 	}
 	r := &tickRec{p: p, t0: time.Now(), stmt0: s.w.StmtLen(), mut0: s.zk.MutLen(), stateBefore: p.app.state, lockBefore: s.lockOwner(),
 		switchBefore: s.currentSwitch(), maintBefore: s.currentMaint(), masterBefore: s.masterKey(), activeBefore: s.activeNodes(),
 		recovBefore: s.zk.Children(simNS + "/" + pathRecovery)}
+	if extra != nil {
+		extra(r)
+	}
 	p.onDone = func() { s.endTick(r) }
 	s.start(p, "tick")
 	return r
